@@ -184,6 +184,13 @@ class World:
                 key = "message_template" if a["attr"] == "template" else "title"
                 val = self.tpl_value(a["cls"], a["v"]) if a["attr"] == "template" else self.title_value(a["cls"], a["v"])
                 self.cls(a["cls"]).override(report=r, **{key: val})
+            elif op == "override_bad":
+                key = "message_template" if a["attr"] == "template" else "title"
+                val = self.tpl_value(a["cls"], a["v"]) if a["attr"] == "template" else self.title_value(a["cls"], a["v"])
+                try:
+                    self.cls(a["cls"]).override(report=r, **{key: val, "no_such_field_at_all": 1})
+                except AttributeError:
+                    raised = True          # documented: unknown fields are an AttributeError
             elif op == "override2":
                 key = "message_template" if a["attr"] == "template" else "title"
                 val = self.tpl_value(a["cls"], a["v"]) if a["attr"] == "template" else self.title_value(a["cls"], a["v"])
